@@ -31,6 +31,7 @@ print('OS-request frames recorded:', len(eff))
 inv = {}
 for f in sorted(set(u['file'] for u in index['units'])):
     ck = sorted(engine.contracted_impl_keys(index, f))
-    inv[f] = {'contracted': ck, 'items': engine.item_inventory(os.path.join(engine.REPO, f), ck)}
+    uf = sorted(engine.unit_fn_keys(index, f))
+    inv[f] = {'contracted': ck, 'unit_fns': uf, 'items': engine.item_inventory(os.path.join(engine.REPO, f), ck, uf)}
 json.dump(inv, open(os.path.join(engine.VERIF, 'inventory_baseline.json'), 'w'), indent=1, sort_keys=True)
 print('impl/derive inventories recorded:', len(inv), 'files,', sum(len(v['items']) for v in inv.values()), 'entries')
